@@ -40,6 +40,7 @@ def oracle_tripwire(run):
     started = set()   # lines: a destructor of a trigger holding the line has started
     finished = set()  # lines: such a destructor has returned
     seen_true = set()
+    lineval = {}      # line -> True once an atomic write stored true (the line's current value; it never goes back)
     # happens-before
     vc = {}         # tid -> {tid: clock}
     msg = {}        # line -> clock attached to its current value
@@ -130,8 +131,8 @@ def oracle_tripwire(run):
             elif op == "rm":
                 b, stores = c[2], c[3]
                 if b is not None:
-                    if stores == 0:
-                        return "destructor of a trigger holding %s returned without writing to the line" % b
+                    if not lineval.get(b):
+                        return "destructor of a trigger holding %s returned and the line is still false" % b
                     finished.add(b)
             elif op == "rd":
                 det.pop(int(t[2]), None)
@@ -149,9 +150,16 @@ def oracle_tripwire(run):
                         return "isTripped() on %s is false after a trigger holding that line was destroyed" % l
                     if l in seen_true:
                         return "isTripped() on %s went back from true to false" % l
-        elif k in ("ast", "axc"):
+        elif k in ("ast", "axc", "cas"):
             l, o = t[1], t[2]
             c = cur.get(tid)
+            if k == "cas":
+                # cas <line> <order> <expected> <desired> <ok> <value seen>: a failed CAS is a load, a successful one an RMW
+                if t[5] != "1":
+                    if o in ACQ or o in ("acq", "ar", "sc"):
+                        _join(clock(tid), msg.get(l, {}))
+                    continue
+                t = [k, l, o, t[4]]
             if c is None or c[0] != "rm":
                 return "atomic write to %s outside a trigger destructor (inside %s)" % (l, c[0] if c else "nothing")
             if c[2] is None:
@@ -161,6 +169,7 @@ def oracle_tripwire(run):
             if t[3] != "1":
                 return "destructor stored false to line %s" % l
             c[3] += 1
+            lineval[l] = True
             if k == "ast":
                 msg[l] = dict(clock(tid)) if o in REL else {}
             else:
